@@ -1,2 +1,27 @@
-// verification hooks (see /verif/DESIGN.md section 10); compiled only with --features verif-hooks
+// Verification hooks for src/lfu/tinylfu/sketch/count_min_sketch_std.rs
 #![allow(missing_docs, dead_code, unused_imports)]
+use super::*;
+
+impl CountMinSketch {
+    pub(crate) fn verif_from_parts(rows: [CountMinRow; DEPTH], seeds: [u64; DEPTH], mask: u64) -> Self {
+        CountMinSketch { rows, seeds, mask }
+    }
+    pub(crate) fn verif_mask(&self) -> u64 {
+        self.mask
+    }
+    pub(crate) fn verif_row(&self, r: usize) -> &CountMinRow {
+        &self.rows[r]
+    }
+    pub(crate) fn verif_seeds(&self) -> [u64; DEPTH] {
+        self.seeds
+    }
+    /// all-zero sketch with the same shape and seeds
+    pub(crate) fn verif_zero_like(&self) -> Self {
+        let w = (self.mask + 1) / 2;
+        CountMinSketch { rows: [CountMinRow::new(w), CountMinRow::new(w), CountMinRow::new(w), CountMinRow::new(w)], seeds: self.seeds, mask: self.mask }
+    }
+}
+
+#[cfg(kani)]
+#[path = "/verif/kani/harness_sketch.rs"]
+mod harness;
